@@ -567,9 +567,35 @@ def check_front_end(ctx):
            'core is idle and would start over, overwriting the samples being read): %s' % [q.fmt(a) for a in bad])
 
 
+def check_spi_front_end(ctx):
+    """The SPI front end presents word 0 of a transaction while chip select is still low: the read pointer that addresses
+    the sample memory must therefore sit at 0 whenever the bus is idle, whatever the previous transaction left behind."""
+    C = 'SyncSerialILA'
+    ir = ctx.ir(C, MOD, allow_opaque=True)
+    ptr = [a for a in ir.assigns if a.lhs.canon().endswith('.captured_sample_number') and isinstance(a.rhs, E) and a.rhs.op == 'sig']
+    ctx.need(len(ptr) == 1, 'the read pointer handed to the core analyzer in %s' % C)
+    P = ptr[0].rhs.canon()
+    CS = 'self.spi.cs'
+    pd = ir.drivers(P, exact=True)
+    ctx.need(pd, 'writers of the read pointer %s' % P)
+    # truth table over the conditions of its writers with chip select low: the last firing assignment must be the constant 0
+    from ..fsm import lit_atoms, assignments, holds
+    ats = sorted({x for a in pd for l in a.guard for x in lit_atoms(l)} | {CS})
+    bad = None
+    for asg in assignments(ats, {CS: False}):
+        fire = sorted([a for a in pd if holds(a.guard, asg)], key=lambda a: a.order)
+        if not fire or not q.is_zero(fire[-1].rhs):
+            bad = ({k: v for k, v in asg.items() if k != CS}, q.fmt(fire[-1]) if fire else 'no assignment (the pointer keeps its value)')
+            break
+    ctx.ob('C56.front-end-pointer', C + '.read-pointer@idle', bad is None, pd[0].loc,
+           'while chip select is low the read pointer must return to sample 0 (word 0 of the next transaction is fetched before '
+           'chip select rises): with %s it is decided by %s' % (bad and bad[0], bad and bad[1]))
+
+
 def run(ctx):
     check_symbolic(ctx)
     check_front_end(ctx)
+    check_spi_front_end(ctx)
     check_wiring(ctx)
     depths = QUICK_DEPTHS if ctx.tier != 'thorough' else tuple(sorted(set(QUICK_DEPTHS + THOROUGH_DEPTHS)))
     total = 0
